@@ -475,6 +475,27 @@ def apply_probe(cd, probe):
             touched.append(itf.NAME)
             break
         return touched
+    if kind == "same-name-types":
+        # two types of one name in different packages, both used by some class (here: a class takes the name of an enumeration of
+        # another package); anything that orders types by their bare name has a tie
+        enums = [c for c in cd.classes.values() if c.IS_ENUM]
+        plain = [cid for cid, c in cd.classes.items() if not (c.IS_ENUM or c.IS_STRUCT or c.PURE_VIRTUAL_INTERFACE or c.AUTOGEN)]
+        users = {a.CLASS_TO_ID for a in cd.associations.values()} | {a.CLASS_FROM_ID for a in cd.associations.values()}
+        # the shipped diagram's own pair first: CComposedClass and the enumeration EColor are both used by one class
+        plain.sort(key=lambda x: 0 if cd.classes[x].NAME == "CComposedClass" else 1)
+        enums.sort(key=lambda x: 0 if x.NAME == "EColor" else 1)
+        for cid in plain:
+            c = cd.classes[cid]
+            for e in enums:
+                if cid in users and e.NAMESPACE != c.NAMESPACE and not any(x.NAME == e.NAME and x.NAMESPACE == c.NAMESPACE for x in cd.classes.values()):
+                    old = c.NAME
+                    c.NAME = e.NAME
+                    for o in c.OPERATIONS:
+                        if o.NAME.strip() == old.strip():
+                            o.NAME = e.NAME
+                    retarget_types(cd, c.NAMESPACE + "::" + old, c.NAMESPACE + "::" + e.NAME)
+                    return [e.NAME]
+        return []
     if kind == "long-member-names":
         touched = []
         for c in cd.classes.values():
